@@ -74,7 +74,7 @@ def mk_flags(world):
         resolve_conditionals_at_submission=fl["resolve_conditionals"],
         decompose_deadlines=False,
         release_taskgraphs=sc["rtg"],
-        scheduler_log_times=0,
+        scheduler_log_times=[],
         scheduler_run_load=False,
         scheduler_log_to_file=False,
     )
@@ -227,7 +227,7 @@ def build_scheduler(world, flags, sc):
         return HostileScheduler(
             seed=world.get("seed", 0), runtime=rt, lookahead=la, retract_schedules=sc["retract"],
             release_taskgraphs=sc["rtg"], cancel_rate=sc.get("cancel_rate", 0.1),
-            cancel_cond_children=sc.get("cancel_cond_children", False), _flags=flags,
+            cancel_cond_children=sc.get("cancel_cond_children", False), batching=sc.get("batching", False), _flags=flags,
         )
     raise ValueError(kind)
 
@@ -354,7 +354,7 @@ def gen_world(rnd: random.Random, *, kinds=("edf", "fifo", "lsf", "hostile"), ma
              "enforce": rnd.random() < 0.3 and kind in ("edf", "fifo")}
     if kind == "hostile":
         sched.update({"lookahead": rnd.choice([0, 0, 3, 10]), "retract": rnd.random() < 0.4, "rtg": rnd.random() < 0.3,
-                      "cancel_rate": rnd.choice([0.0, 0.1, 0.3])})
+                      "cancel_rate": rnd.choice([0.0, 0.1, 0.3]), "batching": rnd.random() < 0.3})
     flags = {
         "frequency": rnd.choice([-1, -1, 2, 5]),
         "delay": rnd.choice([0, 0, 1]),
@@ -464,6 +464,25 @@ def directed_worlds():
         "graphs": [{"name": "G0", "jobs": shape_jobs("diamond", random.Random(2), 2), "policy": {"type": "fixed", "period": 4, "n": 3, "start": 2}, "dv": [10, 40]}],
         "pools": [[[I("gpu", "g1", 1), I("gpu", "g2", 1)]]], "sched": {"kind": "lsf", "runtime": 0},
         "flags": {"timeout": 3000, "variance": 50, "frequency": 3, "delay": 1, "expect_all_done": True}, "seed": 6,
+    })
+    # batch strategies: members join a placed batch, the batch empties and the same strategy object is used again
+    out.append({
+        "name": "batch_reuse",
+        "profiles": [{"name": "P0", "strats": [{"dem": gpu1, "rt": 4, "bs": 2}]}, P(3)],
+        "graphs": [{"name": "G0", "jobs": [{"name": "A", "profile": 0}, {"name": "B", "profile": 0}, {"name": "C", "profile": 1}],
+                    "policy": {"type": "fixed", "period": 3, "n": 5, "start": 0}, "dv": [0, 0]}],
+        "pools": one_gpu, "sched": {"kind": "hostile", "runtime": 0, "cancel_rate": 0.0, "lookahead": 0, "batching": True},
+        "flags": {"timeout": 300}, "seed": 21,
+    })
+    # re-planning of SCHEDULED tasks (retract) for another time / the same time with another strategy or pool
+    out.append({
+        "name": "replan",
+        "profiles": [{"name": "P0", "strats": [{"dem": gpu1, "rt": 5, "bs": 1}, {"dem": [R("gpu", "any", 2)], "rt": 2, "bs": 1}]}],
+        "graphs": [{"name": "G0", "jobs": [{"name": "A", "profile": 0, "children": ["B"]}, {"name": "B", "profile": 0}, {"name": "C", "profile": 0}],
+                    "policy": {"type": "fixed", "period": 2, "n": 4, "start": 0}, "dv": [0, 0]}],
+        "pools": [[[I("gpu", "g1", 2)]], [[I("gpu", "g2", 2), I("gpu", "g3", 1)]]],
+        "sched": {"kind": "hostile", "runtime": 1, "cancel_rate": 0.0, "lookahead": 6, "retract": True},
+        "flags": {"timeout": 300, "frequency": 1}, "seed": 33,
     })
     for w in out:
         w.setdefault("flags", {})
